@@ -73,6 +73,33 @@ type vHub struct {
 	clientIds map[*Client]int
 	// "remove" requests for virtual sessions the fake backend received in the current step: (room, public id)
 	told [][2]string
+	// barrier of a concurrent step: the fake backend answers the auth / room requests of the racing
+	// sub-ops only once all of them have arrived, so that their registrations / joins really overlap
+	barN    int
+	barSeen int
+	barCh   chan struct{}
+}
+
+// barrier holds a backend request of a concurrent step until all its competitors have arrived.
+func (h *vHub) barrier() {
+	h.mu.Lock()
+	if h.barN <= 1 || h.barCh == nil {
+		h.mu.Unlock()
+		return
+	}
+	ch := h.barCh
+	h.barSeen++
+	if h.barSeen >= h.barN {
+		close(ch)
+		h.barCh = nil
+		h.mu.Unlock()
+		return
+	}
+	h.mu.Unlock()
+	select {
+	case <-ch:
+	case <-time.After(500 * time.Millisecond):
+	}
 }
 
 func vHubBackendUrl(h *vHub, b int) string { return fmt.Sprintf("%s/b%d", h.server.URL, b) }
@@ -158,6 +185,7 @@ func (h *vHub) backendHandler(b int, w http.ResponseWriter, req *http.Request) {
 	var response *BackendClientResponse
 	switch request.Type {
 	case "auth":
+		h.barrier()
 		var params struct {
 			UserId string `json:"userid"`
 		}
@@ -168,6 +196,7 @@ func (h *vHub) backendHandler(b int, w http.ResponseWriter, req *http.Request) {
 			response = &BackendClientResponse{Type: "room", Room: &BackendClientRoomResponse{Version: BackendVersion, RoomId: request.Room.RoomId}}
 			break
 		}
+		h.barrier()
 		h.mu.Lock()
 		reply := h.roomReply
 		h.roomReply = nil
